@@ -292,7 +292,7 @@ class Ctx:
         """Compile a harness against /repo's working tree.  Returns the binary path,
         or None when it no longer compiles (= broken correspondence, recorded)."""
         out = self.tmp / name
-        cmd = [cc] + VARIANTS[variant] + CPPFLAGS + ["-std=gnu11", "-w", f"-I{VERIF}/harness",
+        cmd = [cc] + VARIANTS[variant] + CPPFLAGS + ["-std=gnu11", "-w", "-iquote", f"{VERIF}/harness",
                                                        f'-DREPO="{REPO}"']
         cmd += [str(VERIF / s) if not os.path.isabs(s) else s for s in sources]
         cmd += list(extra)
